@@ -238,11 +238,6 @@ func c06concScenarios(r *ev.Run) []conc.Scenario {
 		for _, be := range kv.Backends {
 			pl, be := pl, be
 			b := bound
-			if len(pl.Read) > 0 && b > 2 {
-				b = 3
-			} else if b > 2 {
-				b = 4
-			}
 			scs = append(scs, conc.Scenario{
 				Name:  fmt.Sprintf("c06 %s [%s] then %s", be, historyString(pl.Prefix), pl.Name),
 				Key:   fmt.Sprintf("c06 %s %s", be, pl.Name),
@@ -255,11 +250,6 @@ func c06concScenarios(r *ev.Run) []conc.Scenario {
 		for _, be := range kv.Backends {
 			pl, be := pl, be
 			b := bound
-			if len(pl.Writers)+len(pl.Read) > 2 && b > 2 {
-				b = 3
-			} else if b > 2 {
-				b = 4
-			}
 			scs = append(scs, conc.Scenario{
 				Name:       fmt.Sprintf("c06 %s [%s] then %s", be, historyString(pl.Prefix), pl.Name),
 				Key:        fmt.Sprintf("c06 %s %s", be, pl.Name),
@@ -380,19 +370,19 @@ func runC06Conc(r *ev.Run) {
 		r.Set("race_rule", "free-running race-detector pass over the concurrency scenarios of the conc phase (same thread bodies as ordinary goroutines in a -race build); scenarios with two writer threads are skipped (the harness's reference model is shared between them)")
 		r.Finish()
 	}
-	if r.Thorough() && r.Deadline.IsZero() {
-		// internal deadline: an unfinished enumeration is reported as exhaustive=false, not as a failure
-		r.Deadline = r.Start.Add(13 * time.Minute)
-	}
 	r.Fork(ev.Workers())
 	scs := c06concScenarios(r)
 	conc.Explore(r, "dbmc-conc", scs)
+	if r.Thorough() {
+		// beyond the claimed bound: one more preemption for as long as the time budget lasts
+		conc.ExploreExtra(r, "dbmc-conc", scs, r.Start.Add(12*time.Minute))
+	}
 	b := 2
 	if r.Thorough() {
-		b = 4
+		b = 3
 	}
 	r.Set("conc_preemption_bound", b)
-	r.Set("conc_rule", "concurrent readers against committer / finalizer / pruner: after a sequential prefix history, 2-3 controlled threads run on the real node database (badger and pathbadger): writer threads execute letters (commit of competing candidates, finalize discarding one, prune of one or two versions; committer and pruner as separate threads), reader threads read finalized roots that stay retained (HasRoot, full iteration, gets, verified proofs) and must see exactly the reference contents; every schedule with at most conc_preemption_bound preemptions (one less where three threads run in the thorough tier) at the database's locks, reads and durable writes is executed; afterwards the sequential read-back oracle is applied to the final state")
+	r.Set("conc_rule", "concurrent readers against committer / finalizer / pruner: after a sequential prefix history, 2-3 controlled threads run on the real node database (badger and pathbadger): writer threads execute letters (commit of competing candidates, finalize discarding one, prune of one or two versions; committer and pruner as separate threads), reader threads read finalized roots that stay retained (HasRoot, full iteration, gets, verified proofs) and must see exactly the reference contents; every schedule with at most conc_preemption_bound preemptions (thorough: one more preemption is explored for the rest of a 12-minute budget, reported as conc_extra_*) at the database's locks, reads and durable writes is executed; afterwards the sequential read-back oracle is applied to the final state")
 	r.Assume("concurrency phase: threads are preempted only at lock acquisitions of the node database and at badger reads / durable writes; a single writer's own reads are not scheduling points (they commute with the readers' reads); badger's internal goroutines run freely (they do not change logical contents)")
 	r.Finish()
 	_ = json.Marshal
